@@ -128,6 +128,13 @@ def build(rng, depth, k, in_module):
         if (f, l) in cb_lines: expected2.append((f, l))
     return "\n".join(lines) + "\n", mods, expected2, ("error" if kind == 1 else ename)
 
+def bad_table(m):
+    # an AddLine history after which the implementation's own table is not strictly ascending from 0
+    # is a concrete failing input: Position reports offsets of that file at the wrong line
+    if not m.get("addlines") or not (m.get("expect") or "").startswith("(lines"): return False
+    t = [int(x) for x in vlib.parse_sexp(m["expect"])[1:]]
+    return not t or t[0] != 0 or any(a >= b for a, b in zip(t, t[1:]))
+
 def run(rep, br, proofs, rng, tier):
     n = 250 if tier == "quick" else 5000
     cases = []
@@ -169,6 +176,27 @@ def run(rep, br, proofs, rng, tier):
                 m = mk_case("%s.u%d" % (c["id"], len(mcases)), "unpack", lines, smp[0]); m["expect"] = "(%s %s)" % (smp[1], smp[2]); m["parent"] = c
                 mcases.append(m)
     if tier == "quick": mcases = mcases[::7]
+    # model tie: histories of AddLine calls (own random stream: the layouts above keep theirs)
+    import random as _random
+    arng = _random.Random(160016)
+    acases = []
+    for i in range(300 if tier == "quick" else 20000):
+        size = arng.choice([0, 1, 2, 5, 20, 100, 1000])
+        offs, cur = [], 0
+        for _ in range(arng.randrange(0, 12)):
+            r = arng.random()
+            if r < .6: cur += arng.randrange(1, max(2, size // 4 + 2))          # ascending, as the scanner calls it
+            elif r < .75: pass                                                   # the same offset again
+            elif r < .85: cur = arng.randrange(-3, size + 3)                     # anywhere, before the last entry too
+            elif r < .95: cur = arng.choice([0, size - 1, size, size + 1, -1])   # the edges of the file
+            else: cur = arng.choice([2**31, -2**31, 2**40])
+            offs.append(str(cur))
+        m = mk_case("a%d" % i, "addlines", str(size), ["offs"] + offs); m["addlines"] = True; m["parent"] = None
+        acases.append(m)
+    aimpl, _ = vlib.run_impl([m["line"] for m in acases], timeout=600)
+    for m in acases:
+        m["expect"] = aimpl.get(m["id"])
+    mcases += acases
     # model tie: file lookup (SourceFileSet.File vs file_of) on the range edges of every file of the set
     seen_sets = set()
     for c in cases:
@@ -189,13 +217,13 @@ def run(rep, br, proofs, rng, tier):
     for c, why in fails[:10]:
         rep.violation({"property": "C16", "kind": "oracle", "why": why, "case": c["line"][:1500], "script": c["src"] + "".join("\n--- module ---\n" + m for m in c["mods"])})
     if not fails:
-        for m in dis[:10]:
-            rep.violation({"property": "C16", "kind": "correspondence", "why": "line table model (Pos/LineTable.v unpack / file_of) and SourceFileSet.Position / File disagree", "case": m["line"][:1500], "impl": m["expect"], "model": model.get(m["id"])}, found=False)
+        for m in sorted(dis, key=lambda m: not bad_table(m))[:10]:
+            rep.violation({"property": "C16", "kind": "correspondence", "why": "line table model (Pos/LineTable.v unpack / file_of) and SourceFileSet.Position / File disagree", "case": m["line"][:1500], "impl": m["expect"], "model": model.get(m["id"])}, found=bad_table(m))
     rep.coverage.update({
         "evaluations": len(cases) + len(mcases), "distinct_nontrivial": ok,
         "rule": "generated one-statement-per-line layouts (random blank lines, line comments, block comments before, after and across statements, filler declarations, literal constants as operands of the failing operator) in which an error (failing operator, failing builtin, failing functions of the time and strings modules (plain Go errors), bad index, call of a non-callable, wrong argument count, thrown value) escapes from call depth 0,1,2,3,5,8, in the main file, inside a function of an imported source module or while a module body runs during its import (made at top level or inside a function), optionally through 1-3 recursive activations of one call site, x optimizer on/off x encode/decode x k prepended blank lines; expected lines computed by the generator; positions must lie inside the named file; real line tables and sampled offsets re-resolved by the Coq unpack; non-trivial = a trace was produced and matched",
         "samples": [cases[0]["src"], str(cases[0]["expected"])],
-        "traces_matched": ok, "unpack_compared": len([m for m in mcases if not m.get("fileof")]), "file_lookups_compared": len([m for m in mcases if m.get("fileof")]), "disagreements": len(dis), "oracle_failures": len(fails)})
+        "traces_matched": ok, "unpack_compared": len([m for m in mcases if not m.get("fileof") and not m.get("addlines")]), "file_lookups_compared": len([m for m in mcases if m.get("fileof")]), "addline_histories_compared": len([m for m in mcases if m.get("addlines")]), "disagreements": len(dis), "oracle_failures": len(fails)})
 
 def replay(payload, br):
     print(payload.get("why")); print(payload.get("script") or "")
